@@ -29,8 +29,10 @@ type ProcCfg struct {
 	Extra map[string]int `json:"extra,omitempty"`
 	// ExtraKind: kind of surplus results ("pass" default, "filter", "error").
 	ExtraKind string `json:"extra_kind,omitempty"`
-	Gated     bool   `json:"gated"` // each Process call returns only when released by the driver
-	OpenErr   string `json:"open_err,omitempty"`
+	// AlwaysShort >= 0: every call returns only this many results (a processor that never converges)
+	AlwaysShort *int   `json:"always_short,omitempty"`
+	Gated       bool   `json:"gated"` // each Process call returns only when released by the driver
+	OpenErr     string `json:"open_err,omitempty"`
 	// OpenErrGen: Open fails only for this generation (C13: failing reconfigure)
 	OpenErrGen  string `json:"open_err_gen,omitempty"`
 	TeardownErr string `json:"teardown_err,omitempty"`
@@ -123,6 +125,9 @@ func (p *Proc) Process(ctx context.Context, recs []opencdc.Record) []sdk.Process
 	n := len(recs)
 	if k, ok := p.Cfg.Short[strconv.Itoa(call)]; ok && k < n {
 		n = k
+	}
+	if p.Cfg.AlwaysShort != nil && *p.Cfg.AlwaysShort < n {
+		n = *p.Cfg.AlwaysShort
 	}
 	out := make([]sdk.ProcessedRecord, 0, n)
 	for i := 0; i < n; i++ {
